@@ -14,6 +14,7 @@ const (
 	chSelect                // n = cases: rotation of the polling order of a select
 	chEnv                   // environment decision drawn at run time
 	chMap                   // n = keys: rotation of the (sorted) iteration order of a map
+	chStall                 // n = 1 + durations: 0 = no stall, k = the library task stalls for duration k-1 here
 )
 
 // Policy parametrises how choices are drawn in generate mode.
@@ -46,6 +47,8 @@ type Choices struct {
 	pol    Policy
 	preIdx int
 	nPre   int64 // preempt decisions so far
+	// stallPer1024 (set by Run from Config): probability of a stall at each stall point
+	stallPer1024 int
 }
 
 // NewChoices returns a generating choice stream.
@@ -150,6 +153,10 @@ func (c *Choices) choose(kind chKind, n int) int {
 	case chMap:
 		if c.pol.MapPer1024 > 0 && int(c.rng.Next()%1024) < c.pol.MapPer1024 {
 			v = int(c.rng.Next() % uint64(n))
+		}
+	case chStall:
+		if int(c.rng.Next()%1024) < c.stallPer1024 {
+			v = 1 + int(c.rng.Next()%uint64(n-1))
 		}
 	}
 
